@@ -16,20 +16,20 @@ structure W where
 def isPow2 (n : Nat) : Bool := n != 0 && pow2ge n == n
 
 def tagOf (s : Ledger) (b : Nat) : String :=
-  match s.blocks[b]? with
+  match s.mem.blocks[b]? with
   | some bl => if bl.split then "[D4-split-block]" else ""
   | none => ""
 
 def pidOf (s : Ledger) (b : Nat) : String :=
-  match s.blocks[b]? with
+  match s.mem.blocks[b]? with
   | some bl => if bl.kind = .pool then toString bl.pid else "-1"
   | none => "?"
 
 def showEv (s : Ledger) : Ev → Option String
-  | .malloc b => match s.blocks[b]? with
+  | .malloc b => match s.mem.blocks[b]? with
     | some bl => some s!"m{bl.pid}:{bl.cap}"
     | none => some "m?"
-  | .free b cap => match s.blocks[b]? with
+  | .free b cap => match s.mem.blocks[b]? with
     | some bl => if bl.kind = .pool then some s!"f{bl.pid}" else if isPow2 cap then some "f-1" else none
     | none => some "f?"
   | .write _ _ _ => none
@@ -43,7 +43,7 @@ def problems (s0 s : Ledger) (evs : List Ev) : List String := Id.run do
   for e in evs do
     match e with
     | .free b cap =>
-      match s.blocks[b]? with
+      match s.mem.blocks[b]? with
       | none => out := out ++ ["free-of-unknown-block"]
       | some bl =>
         if bl.kind ≠ .pool then
@@ -51,35 +51,35 @@ def problems (s0 s : Ledger) (evs : List Ev) : List String := Id.run do
             out := out ++ [(if bl.kind = .caller then "caller-memory-freed" else "foreign-free") ++ s!" cap={cap}"]
           else out := out ++ [s!"free-call-on-foreign-memory cap={cap}"]
         else
-          let before := (match s0.blocks[b]? with | some b0 => b0.frees | none => 0) + (seen.filter (· = b)).length
+          let before := (match s0.mem.blocks[b]? with | some b0 => b0.frees | none => 0) + (seen.filter (· = b)).length
           if before > 0 then out := out ++ [s!"double-free block={bl.pid}{tagOf s b}"]
-          for (i, v) in enum s.views do
+          for (i, v) in enum s.mem.views do
             if v.live ∧ v.block = b then
               out := out ++ [s!"free-while-view-live block={bl.pid} view={i} owner={v.owner}{tagOf s b}"]
       seen := seen ++ [b]
     | .write b lo hi =>
-      for (i, v) in enum s0.views do
+      for (i, v) in enum s0.mem.views do
         if v.live ∧ v.block = b ∧ lo < v.hi ∧ v.lo < hi then
           out := out ++ [s!"write-under-live-view block={pidOf s b} view={i} owner={v.owner}{tagOf s b}"]
-      match s.blocks[b]? with
+      match s.mem.blocks[b]? with
       | some bl => if bl.kind = .caller then out := out ++ [s!"caller-memory-written block={b}"]
       | none => pure ()
     | _ => pure ()
   for (id, buf) in s.bufs do
     for i in buf.chain do
-      match s.nodes[i]? with
+      match s.mem.nodes[i]? with
       | some nd =>
         if nd.cap > 0 then
           match nd.block with
           | some b =>
-            match s.blocks[b]? with
+            match s.mem.blocks[b]? with
             | some bl =>
               if bl.kind = Kind.pool ∧ bl.frees > 0 then
                 out := out ++ [s!"freed-block-in-chain block={bl.pid} buf={id}{tagOf s b}"]
             | none => pure ()
           | none => pure ()
       | none => out := out ++ [s!"unknown-node-in-chain buf={id}"]
-  for (i, nd) in enum s.nodes do
+  for (i, nd) in enum s.mem.nodes do
     if nd.recycled > 1 then out := out ++ [s!"node-recycled-twice node={i}"]
   return out
 
@@ -88,16 +88,16 @@ def dumpOwn (s : Ledger) : String :=
   " ".intercalate <| s.bufs.filterMap fun (id, b) =>
     if b.chain.isEmpty then none else
     some (s!"B{id}:" ++ ",".intercalate (b.chain.map fun i =>
-      match s.nodes[i]? with
+      match s.mem.nodes[i]? with
       | none => "?"
       | some nd =>
         let blk := match nd.block with
-          | some bi => match s.blocks[bi]? with
+          | some bi => match s.mem.blocks[bi]? with
             | some bl => if bl.kind = Kind.pool ∧ nd.cap > 0 then s!"{bl.pid}+{nd.lo}" else "-1+0"
             | none => "?"
           | none => "-1+0"
         let org := match nd.origin with
-          | some o => match s.nodes[o]? with
+          | some o => match s.mem.nodes[o]? with
             | some on => s!"{on.refer}"
             | none => "?"
           | none => "-"
@@ -153,11 +153,11 @@ def stepLine (w : W) (line : String) : String × W :=
     let extra := if rep = "panic" then "" else " !! model-panic-differs ledger=panic"
     ("@@" ++ extra, { val := { val with dead := true }, led := s0 })
   | some s =>
-    let evs := s.log.drop s0.log.length
+    let evs := s.mem.log.drop s0.mem.log.length
     let mut_probs := problems s0 s evs
     let shape := s.bufs.filterMap fun (id, b) =>
       match val.bufs.get? id with
-      | some v => if sameShape s b v then none else some s!"shape-differs buf={id}"
+      | some v => if sameShape s.mem b v then none else some s!"shape-differs buf={id}"
       | none => some s!"shape-differs buf={id} (no value buffer)"
     let pan := if rep = "panic" then ["model-panic-differs value=panic"] else []
     let probs := mut_probs ++ shape ++ pan
